@@ -28,10 +28,11 @@ fn op(u: &mut Unstructured, nc: u8, nt: u8) -> Result<Op> {
         15 | 16 => Op::Store(c, val(u)?),
         17 | 18 => Op::Swap(c, val(u)?),
         19 | 20 => {
-            let cur = match u.int_in_range(0u8..=7)? {
+            let cur = match u.int_in_range(0u8..=9)? {
                 0..=3 => Cur::Loaded,
                 4..=6 => Cur::Handle(u.arbitrary()?),
-                _ => Cur::Null,
+                7 => Cur::Null,
+                _ => Cur::Held(u.arbitrary()?),
             };
             let form = [Form::Ref, Form::Guard, Form::GuardRef, Form::Raw][u.int_in_range(0usize..=3)?];
             Op::Cas(c, cur, form, val(u)?)
@@ -173,10 +174,65 @@ pub fn fuzz_seqmodel(data: &[u8]) {
     }
 }
 
+/// second half of target `kinds`: mixed-kind programs (C12mix / C15mix) with the operations that
+/// run into the open finding F9a left out by construction
+fn fuzz_mix(u: &mut Unstructured) {
+    use crate::mixseq::*;
+    AVOID_F9A.store(true, std::sync::atomic::Ordering::Relaxed);
+    let r: Result<MCase> = (|| {
+        let val = |u: &mut Unstructured| -> Result<MVal> {
+            Ok(match u.int_in_range(0u8..=8)? {
+                0..=5 => MVal::Pool(u.int_in_range(0u8..=2)?),
+                6 | 7 => MVal::Fresh,
+                _ => MVal::Empty,
+            })
+        };
+        let nk = u.int_in_range(1usize..=4)?;
+        let mut kinds = Vec::new();
+        for _ in 0..nk {
+            kinds.push([MKind::Strong, MKind::OptStrong, MKind::Weak, MKind::Weak][u.int_in_range(0usize..=3)?]);
+        }
+        let mut init = Vec::new();
+        for _ in 0..4 {
+            init.push(val(u)?);
+        }
+        let n = u.int_in_range(1usize..=39)?;
+        let mut ops = Vec::new();
+        for _ in 0..n {
+            let c = u.int_in_range(0u8..=3)?;
+            ops.push(match u.int_in_range(0u8..=11)? {
+                0..=2 => MOp::Load(c),
+                3 => MOp::LoadFull(c),
+                4 | 5 => MOp::Store(c, val(u)?),
+                6 => MOp::Swap(c, val(u)?),
+                7 => MOp::Cas(c, val(u)?, val(u)?),
+                8 => MOp::DerefGuard(u.arbitrary()?),
+                9 => MOp::DropGuard(u.arbitrary()?),
+                10 => MOp::DropHandle(u.arbitrary()?),
+                _ => {
+                    if u.ratio(1u8, 2u8)? {
+                        MOp::DropPool(u.int_in_range(0u8..=2)?)
+                    } else {
+                        MOp::Hold(c, u.int_in_range(2u8..=11)?)
+                    }
+                }
+            });
+        }
+        Ok(MCase { rc_family: u.arbitrary()?, fallback_only: u.arbitrary()?, kinds, init, ops })
+    })();
+    let Ok(c) = r else { return };
+    if let Err(m) = run_case(&c) {
+        report_violation("C15", "C15mix", "E2", &m, serde_json::to_value(&c).unwrap());
+    }
+}
+
 /// target `kinds`: C15 laws (real Arc/Rc/Weak, ASan)
 pub fn fuzz_kinds(data: &[u8]) {
     use kinds::*;
     let mut u = Unstructured::new(data);
+    if u.ratio(1u8, 2u8).unwrap_or(false) {
+        return fuzz_mix(&mut u);
+    }
     let r: Result<KCase> = (|| {
         let kind = [KKind::Strong, KKind::OptSome, KKind::OptNone, KKind::Weak, KKind::WeakDangling, KKind::WeakDead, KKind::OptWeakSome, KKind::OptWeakNone][u.int_in_range(0usize..=7)?];
         let n = u.int_in_range(1usize..=11)?;
